@@ -32,7 +32,7 @@ def run(ctx):
     atb = em["add_tx_to_block"]
     idx = atb.j["param_names"].index("tx_info")
     # ---- 1. who may speak as the indexer
-    sites = [(f, c) for f in F.body_fns() for c in f.calls() if c.target_id == atb.id and not f.is_cleanup(c.bb)]
+    sites = [(f, c) for f in F.host_units() for c in f.calls() if c.target_id == atb.id and not f.is_cleanup(c.bb)]
     R.floor("add_tx_to_block_call_sites", len(sites), 7)
     classes = {}
     for f, c in sites:
@@ -72,7 +72,7 @@ def run(ctx):
     for f in F.body_fns():
         for c in f.calls():
             if c.trait == "std::ops::Deref" and (c.self_ty or "").endswith("INDEXER_ADDRESS") and not f.is_cleanup(c.bb):
-                users.add(f.name)
+                users |= F.hosts_of(f)       # a private helper shared by the loaders is the loaders' use
     allowed_users = {"brc20_controller::brc20_controller::load_brc20_mint_tx", "brc20_controller::brc20_controller::load_brc20_burn_tx",
                      "brc20_controller::brc20_controller::load_brc20_balance_tx", "brc20_controller::brc20_controller::load_brc20_deploy_tx"}
     for u in sorted(users):
@@ -84,7 +84,7 @@ def run(ctx):
     want = {"load_brc20_mint_tx": "brc20_deposit", "load_brc20_burn_tx": "brc20_withdraw", "load_brc20_deploy_tx": "initialise", "load_brc20_balance_tx": "brc20_balance"}
     for ln, who in want.items():
         lf = [f for f in F.fns.values() if f.name.endswith("brc20_controller::" + ln)]
-        callers = sorted({f.name for f in F.body_fns() for c in f.calls() if lf and c.target_id == lf[0].id})
+        callers = sorted({h for f in F.body_fns() for c in f.calls() if lf and c.target_id == lf[0].id for h in F.hosts_of(f)})
         R.ob(bool(callers) and all(who in c for c in callers), "WHO", "src/brc20_controller", "WHO|%s" % ln, "%s is called from %s; only %s may" % (ln, callers, who),
              sample={"rule": "WHO", "loader": ln, "callers": callers})
     # ---- 3. one normaliser / one derivation
